@@ -95,46 +95,64 @@ def shrink_case(case):
         yield extra
 
 
-def gen_cases(tier, seed, salt, lmax_block=5, lmax_basis=3, extra=None, nb_quick=12, nb_thorough=100,
-              block_reps_thorough=3, with_T=True, exp_hi=None):
-    """Every (la, lb) pair at block level; bases of 1-4 shells with mixed types (and transforms)."""
+def gen_cases(tier, seed, salt, lmax_block=5, lmax_basis=3, extra=None, nb_quick=40, nb_thorough=300,
+              block_reps_thorough=4, with_T=True, exp_hi=None, kcap_big=None, lmax_pairs=None):
+    """Every (la, lb) pair at block level (K 1-4, M 1-3; coincident / collinear / far-apart-compact geometries);
+    atom-structured bases of 1-4 shells with mixed types (and transforms)."""
+    from lib import gen_basis, gen_window_pair
     rng = random.Random(1000003 * seed + salt)
     cases = []
     reps = 1 if tier == "quick" else block_reps_thorough
-    for _ in range(reps):
+    for rep_i in range(reps):
         for la, lb in itertools.product(range(lmax_block + 1), range(lmax_block + 1)):
             big = la + lb >= 7
-            kmax = (2 if big else 3) if tier == "quick" else (3 if big else 4)
-            mmax = 2 if (tier == "quick" or big) else 3
-            sa = gen_shell(rng, l=la, kmax=kmax, mmax=mmax, sph=False, exp_hi=exp_hi)
-            sb = gen_shell(rng, l=lb, kmax=kmax, mmax=mmax, sph=False, exp_hi=exp_hi)
+            kmax = 3 if big else 4
+            if kcap_big is not None and big:
+                kmax = kcap_big
+            mmax = 2 if big else 3
             r = rng.random()
-            if r < 0.12:
-                sb.coord = list(sa.coord)  # coincident centres
-            elif r < 0.24:
-                sb.coord = [sa.coord[0], sa.coord[1], sb.coord[2]]  # same x, y
+            if r < 0.2:
+                sa, sb = gen_window_pair(rng, la, lb)
+            else:
+                sa = gen_shell(rng, l=la, kmax=kmax, mmax=mmax, sph=False, exp_hi=exp_hi)
+                sb = gen_shell(rng, l=lb, kmax=kmax, mmax=mmax, sph=False, exp_hi=exp_hi)
+                if r < 0.32:
+                    sb.coord = list(sa.coord)  # coincident centres
+                elif r < 0.42:
+                    sb.coord = [sa.coord[0], sa.coord[1], sb.coord[2]]  # same x, y
+                elif r < 0.5:
+                    sa.coord = [Fraction(0)] * 3
             c = {"kind": "block", "a": sa.to_json(), "b": sb.to_json()}
             if extra:
-                c.update(extra(rng, "block"))
+                c.update(extra(rng, "block", [sa, sb]))
+            cases.append(c)
+    # enumerated: two shells on ONE (off-origin) centre, every (la, lb) and every type assignment
+    if lmax_pairs is None:
+        lmax_pairs = min(lmax_block, 4)
+    for la, lb in itertools.product(range(lmax_pairs + 1), range(lmax_pairs + 1)):
+        if tier == "quick" and (la + lb) % 2 == 1 and rng.random() < 0.5:
+            continue
+        centre = [Fraction(rng.randint(-24, 24), 16) for _ in range(3)]
+        for ta, tb in ((False, False), (False, True), (True, False), (True, True)):
+            if tier == "quick" and rng.random() < 0.5:
+                continue
+            sa = gen_shell(rng, l=la, kmax=2, mmax=2, sph=ta, exp_hi=exp_hi, coord=list(centre))
+            sb = gen_shell(rng, l=lb, kmax=2, mmax=2, sph=tb, exp_hi=exp_hi, coord=list(centre))
+            c = {"kind": "basis", "basis": [sa.to_json(), sb.to_json()], "T": None}
+            if extra:
+                c.update(extra(rng, "basis", [sa, sb]))
             cases.append(c)
     nb = nb_quick if tier == "quick" else nb_thorough
     for i in range(nb):
         n = 1 + i % 4
-        lm = lmax_basis if n <= 2 else min(lmax_basis, 2 if tier == "quick" else 3)
-        basis = [gen_shell(rng, lmax=lm, kmax=3 if tier == "quick" else 4, mmax=2 if n > 2 else 3, exp_hi=exp_hi)
-                 for _ in range(n)]
-        if i % 5 == 0:
-            for s in basis:
-                s.sph = True
-        if i % 7 == 0:
-            for s in basis:
-                s.sph = False
+        lm = lmax_basis if n <= 2 else min(lmax_basis, 3)
+        basis = gen_basis(rng, n, lmax=lm, kmax=3 if n > 2 else 4, mmax=2 if n > 2 else 3, exp_hi=exp_hi)
         c = {"kind": "basis", "basis": [s.to_json() for s in basis], "T": None}
         if with_T and i % 3 == 2:
             nf = sum(s.nfun() for s in basis)
             nr = rng.choice([1, 2, nf, nf + 1])
             c["T"] = [[str(x) for x in row] for row in gen_transform(rng, nr, nf)]
         if extra:
-            c.update(extra(rng, "basis"))
+            c.update(extra(rng, "basis", basis))
         cases.append(c)
     return cases
